@@ -54,8 +54,6 @@ def o_ctor(case):
         k, v = guarded(lambda: RTCMMessage(payload=p, labelmsm=lm), f"RTCMMessage({p.hex()[:60]}.. len {len(p)})")
         evals += 1
         kinds.add(k)
-        if k == "ok":
-            guarded(lambda: (str(v), repr(v), v.serialize(), v.identity, v.ismsm), "str/repr/serialize of the result")
     ident = framing.ref_identity(p)
     defined = ident is not None and model.definition(ident) is not None
     cls = ["len%d" % len(p) if len(p) <= 3 else "len>3", "defined" if defined else "undefined"] + sorted(kinds)
@@ -134,8 +132,6 @@ def o_mut(case):
     p0 = bytes.fromhex(case["payload"])
     p = mutate(p0, case)
     k, v = guarded(lambda: RTCMMessage(payload=p), f"mutation {case['mut']} of {case['ident']}: RTCMMessage({p.hex()[:60]}.. len {len(p)})")
-    if k == "ok":
-        guarded(lambda: (str(v), v.serialize()), "str/serialize")
     if len(p) <= 1023:
         f = framing.build_frame(p)
         guarded(lambda: RTCMReader.parse(f, validate=1), "static parse of framed mutation")
@@ -158,8 +154,6 @@ def o_vtec(case):
 
     p = bytes.fromhex(case["payload"])
     k, v = guarded(lambda: RTCMMessage(payload=p), f"4076_201 body {p.hex()[:80]}")
-    if k == "ok":
-        guarded(lambda: (str(v), parse_4076_201(v)), "str / parse_4076_201")
     return Res(nontrivial=True, classes=[k])
 
 
